@@ -121,8 +121,18 @@ def _expand(call, helper, site):
     body = copy.deepcopy(helper["body"])
     params = copy.deepcopy(params)
     off = STRIDE * site
+    # locals bound inside the helper get fresh ids; locals it captures (a closure used as a local function) keep theirs
+    bound = set()
+    for x in list(_walk(params)) + list(_walk(body)):
+        if x.get("k") == "bind" and isinstance(x.get("hid"), int):
+            bound.add(x["hid"])
+    free = {x["hid"] for x in _walk(body) if x.get("k") == "local" and isinstance(x.get("hid"), int) and x["hid"] not in bound}
     _shift(body, off)
     _shift(params, off)
+    if free:
+        for x in _walk(body):
+            if x.get("k") == "local" and isinstance(x.get("hid"), int) and (x["hid"] - off) in free:
+                x["hid"] -= off
     mapping = {}
     lets = []
     for p, a in zip(params, args):
@@ -139,6 +149,17 @@ def _expand(call, helper, site):
         else:
             lets.append({"k": "let", "pat": b, "init": copy.deepcopy(a), "els": None, "line": call.get("line")})
     body = _subst(body, mapping)
+    # a function item passed as an argument and called through the parameter: the call now names the function itself
+    for x in _walk(body):
+        if x.get("k") == "call" and str(x.get("callee", "")).startswith("local:") and isinstance(x.get("f"), dict) and x["f"].get("k") == "path" \
+                and isinstance(x["f"].get("def"), str) and "::" in x["f"]["def"]:
+            d = x["f"]["def"]
+            if any(m_ in d for m_ in ("<impl f32>::", "<impl f64>::", "<impl usize>::")) and x["args"]:
+                a_ = x["args"]
+                x.pop("f", None)
+                x.update({"k": "mcall", "name": d.rsplit("::", 1)[-1], "callee": d, "recv": a_[0], "args": a_[1:]})
+            else:
+                x["callee"] = d
     has_ret = any(x.get("k") == "ret" for x in _walk(body))
     lbl = None
     if has_ret:
@@ -188,10 +209,165 @@ def _replace_calls(n, targets, fns, counter, done):
     return n
 
 
+def _strip_ref_ty(t):
+    t = (t or "").strip()
+    while t.startswith("&"):
+        t = t[1:].lstrip()
+        if t.startswith("mut "):
+            t = t[4:]
+        if t.startswith("'"):
+            t = t.split(" ", 1)[1] if " " in t else t
+    return t
+
+
+def _call_sites(fns, path):
+    out = []
+    for caller, f in fns.items():
+        for x in _walk(f.get("body")):
+            if x.get("k") in ("call", "mcall") and _callee(x) == path:
+                out.append((caller, x))
+    return out
+
+
+def _self_bind(fn):
+    for p in fn.get("params") or []:
+        q = p
+        while q is not None and q.get("k") in ("ref", "deref"):
+            q = q["p"]
+        if q is not None and q.get("k") == "bind" and q.get("name") == "self":
+            return q
+    return None
+
+
+def _self_rooted_place(n, self_hid, depth=0):
+    """`self.f`, `&self.f`, `self.f.g` - a field path of the caller's self"""
+    while n is not None and n.get("k") in ("ref", "blk") and depth < 6:
+        n = n["x"] if n["k"] == "ref" else (n["b"]["tail"] if not n["b"]["stmts"] else None)
+        depth += 1
+    if n is None or n.get("k") != "field":
+        return None
+    path = []
+    while n is not None and n.get("k") == "field":
+        path.append(n["f"])
+        n = n["b"]
+        while n is not None and n.get("k") in ("ref", "un"):
+            n = n["x"]
+    if n is not None and n.get("k") == "local" and n.get("hid") == self_hid:
+        return tuple(reversed(path))
+    return None
+
+
+def _adapt(fns, cand, want, types):
+    """try to bring the new private function `cand` to the signature `want` (inputs/output of a missing pinned function) by steps that do not
+    change what it computes: (1) a parameter that receives the same field of the caller's `self` at every call site *is* that field (the
+    function then needs `self`); (2) a dropped `self` parameter is added back (call sites become method calls on the caller's self);
+    (3) parameters are put in the pinned order (arguments likewise); `&T` and `T` are not distinguished.  -> True when the signatures agree."""
+    f = fns[cand]
+    sites = _call_sites(fns, cand)
+    if not sites or f.get("body") is None:
+        return False
+    want_in = [_strip_ref_ty(t) for t in (want.get("inputs") or [])]
+    if _strip_ref_ty(f.get("output")) != _strip_ref_ty(want.get("output")):
+        return False
+    owner_ty = cand.rsplit("::", 1)[0]
+    params = list(f.get("params") or [])
+    inputs = list(f.get("inputs") or [])
+    has_self = _self_bind(f) is not None
+    want_self = bool(want_in) and want_in[0] == owner_ty and (want.get("inputs") or [""])[0].lstrip().startswith("&")
+    # (2) a dropped self
+    if want_self and not has_self:
+        callers_ok = all(_self_bind(fns[c_]) is not None and c_.rsplit("::", 1)[0] == owner_ty for (c_, _) in sites)
+        if not callers_ok:
+            return False
+        sh = 8800000 + abs(hash(cand)) % 100000
+        self_t = None
+        for i_, t_ in enumerate(types):
+            if t_ == "&" + owner_ty:
+                self_t = i_
+        params.insert(0, {"k": "bind", "name": "self", "hid": sh, "mode": "BindingMode(No, Not)", "t": self_t})
+        inputs.insert(0, "&" + owner_ty)
+        for (caller, x) in sites:
+            sb = _self_bind(fns[caller])
+            x["k"] = "mcall"
+            x["name"] = cand.rsplit("::", 1)[-1]
+            x["recv"] = {"k": "local", "name": "self", "hid": sb["hid"], "t": sb.get("t"), "line": x.get("line")}
+            x["callee"] = cand
+            x.pop("f", None)
+        has_self = True
+    # (1) parameters that are always a field of the caller's self
+    if len(inputs) > len(want_in):
+        for k in range(len(params) - 1, -1, -1):
+            if has_self and k == 0:
+                continue
+            q = _plain_bind(params[k])
+            if q is None or _assigned(f["body"], q["hid"]):
+                continue
+            fields = set()
+            for (caller, x) in sites:
+                sb = _self_bind(fns[caller])
+                args = ([x["recv"]] if x["k"] == "mcall" else []) + list(x["args"])
+                fp = _self_rooted_place(args[k], sb["hid"]) if (sb is not None and k < len(args) and caller.rsplit("::", 1)[0] == owner_ty) else None
+                fields.add(fp)
+            if len(fields) != 1 or None in fields:
+                continue
+            if len(inputs) <= len(want_in):
+                break
+            # substitute: the parameter is self.<path>
+            if not has_self:
+                break
+            sb_own = _self_bind({"params": params})
+            path = list(fields)[0]
+            expr = {"k": "local", "name": "self", "hid": sb_own["hid"], "t": sb_own.get("t")}
+            for fname in path:
+                expr = {"k": "field", "b": expr, "f": fname}
+            expr["t"] = q.get("t")
+            f["body"] = _subst(f["body"], {q["hid"]: expr})
+            del params[k]
+            del inputs[k]
+            for (caller, x) in sites:
+                if x["k"] == "mcall":
+                    if k == 0:
+                        return False
+                    del x["args"][k - 1]
+                else:
+                    del x["args"][k]
+    if (not want_self) and has_self:
+        return False
+    # (3) order
+    got_in = [_strip_ref_ty(t) for t in inputs]
+    if sorted(got_in) != sorted(want_in) or len(got_in) != len(params):
+        return False
+    perm = []
+    used = set()
+    for t in want_in:
+        k = next((j for j in range(len(got_in)) if j not in used and got_in[j] == t), None)
+        if k is None:
+            return False
+        used.add(k)
+        perm.append(k)
+    if has_self and perm[0] != 0:
+        return False
+    f["params"] = [params[k] for k in perm]
+    f["inputs"] = [inputs[k] for k in perm]
+    if perm != list(range(len(perm))):
+        for (caller, x) in sites:
+            args = ([x["recv"]] if x["k"] == "mcall" else []) + list(x["args"])
+            if len(args) != len(perm):
+                return False
+            args = [args[k] for k in perm]
+            if x["k"] == "mcall":
+                x["recv"], x["args"] = args[0], args[1:]
+            else:
+                x["args"] = args
+    f["adapted_signature"] = True
+    return True
+
+
 def rename_private(facts):
-    """A non-public function of the pinned tree that is missing, while exactly one new non-public function of the same `impl` has exactly its
-    signature (and no other missing function shares that signature), was renamed: it gets its pinned name back (body, call sites and MIR facts).
-    No property is about the name of a private function; the rules anchor on the pinned names."""
+    """A non-public function of the pinned tree that is missing, while exactly one new non-public function of the same `impl` can be brought to
+    its signature (see `_adapt`: same types up to order / `&`, a `self` that was dropped, parameters that are always a field of `self`) and no
+    other missing function competes for it, was renamed / re-parameterised: it gets its pinned name back (body, call sites and MIR facts).
+    No property is about the name or the parameter order of a private function; the rules anchor on the pinned names."""
     try:
         with open(PINNED_PRIVATE) as fh:
             priv = json.load(fh)
@@ -200,19 +376,40 @@ def rename_private(facts):
     pinned = _load() or set()
     fns = facts["fns"]
     missing = [p for p in priv if p not in fns]
+    # a pinned private function that still exists but with its parameters reordered / re-typed is adapted in place
+    for p in list(priv):
+        if p in fns and [_strip_ref_ty(t) for t in (fns[p].get("inputs") or [])] != [_strip_ref_ty(t) for t in (priv[p].get("inputs") or [])]:
+            import copy as _c
+            snap = _c.deepcopy({k_: v_ for k_, v_ in fns.items()})
+            if not _adapt(fns, p, priv[p], facts.get("types") or []):
+                for k_ in list(fns):
+                    fns[k_] = snap[k_]
     if not missing:
         return []
     new = [p for p, f in fns.items() if p not in pinned and f.get("vis") != "Public" and not p.startswith("<") and f.get("body") is not None]
-
-    def sig(d):
-        return (tuple(d.get("inputs") or ()), d.get("output"), d.get("kind"))
     renames = {}
+    import copy as _c
     for m in missing:
         owner = m.rsplit("::", 1)[0]
-        same_sig_missing = [x for x in missing if x.rsplit("::", 1)[0] == owner and sig(priv[x]) == sig(priv[m])]
-        cands = [n for n in new if n.rsplit("::", 1)[0] == owner and sig(fns[n]) == sig(priv[m])]
-        if len(same_sig_missing) == 1 and len(cands) == 1:
-            renames[cands[0]] = m
+        ok = []
+        for n in new:
+            if n.rsplit("::", 1)[0] != owner or n in renames:
+                continue
+            snap = _c.deepcopy(fns)
+            if _adapt(fns, n, priv[m], facts.get("types") or []):
+                ok.append((n, fns.copy()))
+            # always restore; the winning adaptation is re-applied below
+            for k_ in list(fns):
+                fns[k_] = snap[k_]
+        # other missing functions that the same candidate could serve make the match ambiguous
+        if len(ok) == 1:
+            n = ok[0][0]
+            rivals = [x for x in missing if x != m and x.rsplit("::", 1)[0] == owner
+                      and sorted(_strip_ref_ty(t) for t in (priv[x].get("inputs") or [])) == sorted(_strip_ref_ty(t) for t in (priv[m].get("inputs") or []))
+                      and _strip_ref_ty(priv[x].get("output")) == _strip_ref_ty(priv[m].get("output"))]
+            if not rivals:
+                _adapt(fns, n, priv[m], facts.get("types") or [])
+                renames[n] = m
     if not renames:
         return []
     for old_p, new_p in renames.items():
@@ -227,6 +424,8 @@ def rename_private(facts):
                 base = c[5:] if c.startswith("Self:") else c
                 if base in renames:
                     x["callee"] = ("Self:" if c.startswith("Self:") else "") + renames[base]
+                    if x.get("k") == "mcall":
+                        x["name"] = renames[base].rsplit("::", 1)[-1]
             d = x.get("def")
             if isinstance(d, str) and d in renames:
                 x["def"] = renames[d]
